@@ -29,7 +29,7 @@ BODY_KINDS = {
 }
 STIFFNESS = [-5.0e4, -1.0e3, 200.0, -1.0]
 DAMPING = [-20.0, -1.0, 0.0, 3.0]
-EVAL_KINDS = ["call", "call", "forces", "lag"]
+EVAL_KINDS = ["call", "call", "forces", "lag", "flowforces"]
 QUERY_OPS = ["deviation"]
 
 
@@ -75,7 +75,7 @@ class C10(Check):
     }
     required_probes = [
         "step_with_nonzero_mismatch", "step_with_zero_mismatch", "repeated_eval_without_step", "two_bodies_spread_into_nonzero_field",
-        "overlapping_supports", "reset_eval_into_dirty_field", "dt_ratio_ge_100", "step_before_any_eval", "uniform_flow_eval", "generic_flow_eval", "prelude_world_with_other_dx", "non_contiguous_eulerian_fields", "deviation_query", "many_markers", "linear_flow_eval", "creeping_body", "fresh_object_interpolation_probe", "simulator_finalised_after_interactor",
+        "overlapping_supports", "reset_eval_into_dirty_field", "dt_ratio_ge_100", "step_before_any_eval", "uniform_flow_eval", "generic_flow_eval", "prelude_world_with_other_dx", "non_contiguous_eulerian_fields", "deviation_query", "many_markers", "linear_flow_eval", "creeping_body", "fresh_object_interpolation_probe", "simulator_finalised_after_interactor", "forces_through_flowforces",
     ]
     tiers = {
         "quick": {"runs": 480, "batch": 6, "timeout": 600},
@@ -255,7 +255,7 @@ class C10(Check):
                 gg = prng.np_rng(sub, "move")
                 for ax in range(dim):
                     st["pos"][ax] = lo + (hi[ax] - lo) * gg.random(n)
-                st["vel"][...] = gg.standard_normal((dim, n))
+                st["vel"][...] = gg.standard_normal((dim, n)) * (0.0 if gg.random() < 0.25 else 1.0)  # sometimes a body at rest
 
             state_arrays = {"pos": st["pos"], "vel": st["vel"]}
         elif kind == "cylinder":
@@ -306,7 +306,7 @@ class C10(Check):
                 for ax in range(3):
                     body.position_collection[ax, 0] = (lo + half) + (hi[ax] - lo - 2 * half) * gg.random()
                 body.velocity_collection[:, 0] = gg.standard_normal(3)
-                body.omega_collection[:, 0] = gg.standard_normal(3)
+                body.omega_collection[:, 0] = gg.standard_normal(3) * (0.0 if gg.random() < 0.4 else 1.0)  # re-oriented while not spinning
                 q, _ = np.linalg.qr(gg.standard_normal((3, 3)))
                 if np.linalg.det(q) < 0:
                     q[0] *= -1
@@ -390,7 +390,7 @@ class C10(Check):
             keep_alive = None
         model = PIModel(dim, n, spec["k"], spec["c"], h_max, spec["t0"])
         h_rel = 1.0e-11 if kind.startswith("rod") else 1.0e-15  # elastica regularises rod.lengths at the 1e-13 level
-        return {"keep_alive": keep_alive, "finalized": keep_alive is not None, "rebuild": build, "reset": reset, "h_rel": h_rel, "inter": inter, "twin": twin, "twin_field": twin_field, "model": model, "state": state_arrays, "move": move, "n": n, "kind": kind, "evals_since_step": 0, "ever_eval": False, "dts": []}
+        return {"body_obj": (body if kind != "prog" else None), "keep_alive": keep_alive, "finalized": keep_alive is not None, "rebuild": build, "reset": reset, "h_rel": h_rel, "inter": inter, "twin": twin, "twin_field": twin_field, "model": model, "state": state_arrays, "move": move, "n": n, "kind": kind, "evals_since_step": 0, "ever_eval": False, "dts": []}
 
     @staticmethod
     def _rigid_marker_velocity(b, it, dim):
@@ -480,10 +480,22 @@ class C10(Check):
             vel_before = velocity.copy()
             forc_before = forcing.copy()
             acted = None
-            if kind in ("call", "forces", "lag"):
+            if kind == "flowforces" and not hasattr(b.get("body_obj"), "external_forces"):
+                kind = "forces"  # FlowForces needs a PyElastica body; otherwise the plain evaluation
+            if kind in ("call", "forces", "lag", "flowforces"):
                 acted = bi
                 it, tw, m = b["inter"], b["twin"], b["model"]
-                if kind == "call":
+                if kind == "flowforces":
+                    # body forces evaluated the way PyElastica does it: through the FlowForces forcing class,
+                    # at whatever time value the caller passes (here always the same one)
+                    import sopht.simulator as sps_
+
+                    if "flowforces" not in b:
+                        b["flowforces"] = (sps_.FlowForces(it), sps_.FlowForces(tw))
+                    b["flowforces"][0].apply_forces(b["body_obj"], time=0.0)
+                    b["flowforces"][1].apply_forces(b["body_obj"], time=0.0)
+                    res.probe("forces_through_flowforces")
+                elif kind == "call":
                     it()
                     tw()
                 elif kind == "forces":
